@@ -2400,7 +2400,8 @@ class Parameters:
 
         p = '.'.join(dynamic_dep.spec.split(':')[0].split('.')[depth+1:])
         if p == 'param':
-            subparams = [sp for sp in list(subobjs[-1].param)]
+            # (the sub-object may be missing at the moment, e.g. None)
+            subparams = [sp for sp in list(getattr(subobjs[-1], 'param', []))]
         else:
             subparams = [p]
 
